@@ -368,7 +368,14 @@ def part_or(ctx):
     valid = [p for p in WELL_FORMED if spec_table(p) and p != '*:*']
     k = (20000 if ctx.tier == 'thorough' else 1600) // ctx.nshards
     for _ in range(k):
-        pats = [rng.choice(valid) for _ in range(rng.choice((2, 2, 3, 4)))]
+        pats = [rng.choice(valid) for _ in range(rng.choice(
+            (2, 2, 3, 4, 2, 3, 9, 10, 12, 20, 33)))]
+        if len(pats) > 8 and rng.random() < 0.6:
+            # a long list of exact times, several in the same hour
+            pats = ['{}:{:02d}'.format(rng.choice([6, 7, 7, 18, 22]),
+                                       rng.randrange(60))
+                    for _ in pats]
+            ctx.count('long_or_lists')
         judge_or(ctx, pats, [rng.randrange(1440) for _ in range(2)])
         ctx.case('O:' + ' '.join(pats))
     ctx.sample({'part': 'or', 'script': 'time at 0:00 or 1:30 wait',
